@@ -2,8 +2,8 @@
 EXTENDS TransformFn
 Wq == {-1, 0, 1}
 Wf == {-2, -1, 0, 1}
-Kq == {"eq0", "eq", "lower", "ranged", "free"}
-Kf == {"eq0", "eq", "lower", "upper", "ranged", "free"}
+Kq == {"eq0", "eq", "lower", "ranged", "narrow", "free"}    \* narrow: a genuine range of small relative width (2^20 .. 2^20 + 1)
+Kf == {"eq0", "eq", "lower", "upper", "ranged", "narrow", "free"}
 Pq == {<<1, -2>>, <<4, 6>>}
 Pf == {<<1, -2>>, <<4, 6>>, <<0, 0>>, <<-3, 2>>}
 Mq == {<<2, -1>>}
